@@ -11,6 +11,7 @@ import NgVerif.Model.Conv
 import NgVerif.Model.Down
 import NgVerif.Model.Pyramid
 import NgVerif.Model.Scales
+import NgVerif.Model.FileStore
 /-
   ngdriver: line protocol. One request per line on stdin (space-separated tokens),
   one reply per line on stdout. Unknown / malformed requests answer `bad-request`.
@@ -134,6 +135,57 @@ def parseTy (t : String) : Option Conv.Ty :=
   | "int8" => some .i8 | "int16" => some .i16 | "int32" => some .i32 | "int64" => some .i64
   | "float32" => some .f32 | "float64" => some .f64
   | _ => none
+
+def parseSix (t : String) : Option (Nat × Nat × Nat × Nat × Nat × Nat) :=
+  match parseList parseNat t with
+  | some [a, b, c, d, e, f] => some (a, b, c, d, e, f)
+  | _ => none
+
+def showFsErr : FileStore.Err → String
+  | .refused => "refused" | .access => "access"
+
+/-- history of accessor operations on one dataset directory -/
+def fsHistory (cfg : FileStore.Cfg) (ops : List String) : String :=
+  let rec go (fs : FileStore.FS) (ops : List String) (acc : List String) : FileStore.FS × List String :=
+    match ops with
+    | [] => (fs, acc.reverse)
+    | op :: t =>
+      match op.splitOn "|" with
+      | ["sf", name, h, mime, ow] =>
+        match hexToBytes h with
+        | some b =>
+          match FileStore.storeFile cfg fs name b mime (ow == "1") with
+          | .ok fs' => go fs' t ("ok" :: acc)
+          | .error e => go fs t (showFsErr e :: acc)
+        | none => go fs t ("bad" :: acc)
+      | ["ff", name] =>
+        match FileStore.fetchFile fs name with
+        | .ok (.bytes b) => go fs t (bytesToHex b :: acc)
+        | .ok (.stream b) => go fs t (("gz:" ++ bytesToHex b) :: acc)
+        | .error e => go fs t (showFsErr e :: acc)
+      | ["fe", name] =>
+        match FileStore.fileExists fs name with
+        | .ok b => go fs t ((if b then "1" else "0") :: acc)
+        | .error e => go fs t (showFsErr e :: acc)
+      | ["sc", key, c, h, mime, ow] =>
+        match parseSix c, hexToBytes h with
+        | some c, some b =>
+          match FileStore.storeChunk cfg fs key c b mime (ow == "1") with
+          | .ok fs' => go fs' t ("ok" :: acc)
+          | .error e => go fs t (showFsErr e :: acc)
+        | _, _ => go fs t ("bad" :: acc)
+      | ["fc", key, c] =>
+        match parseSix c with
+        | some c =>
+          match FileStore.fetchChunk fs key c with
+          | .ok (.bytes b) => go fs t (bytesToHex b :: acc)
+          | .ok (.stream b) => go fs t (("gz:" ++ bytesToHex b) :: acc)
+          | .error e => go fs t (showFsErr e :: acc)
+        | none => go fs t ("bad" :: acc)
+      | _ => go fs t ("bad" :: acc)
+  let (fs, outs) := go [] ops []
+  let paths := (fs.map fun e => "/".intercalate e.1).mergeSort (fun a b => a < b || a == b)
+  ";".intercalate outs ++ "#" ++ ";".intercalate paths
 
 def handle (toks : List String) : String :=
   match toks with
@@ -321,6 +373,9 @@ def handle (toks : List String) : String :=
       ";".intercalate ((Tiling.volumeLoop s c).map fun (rx, ry, rz) =>
         s!"{rx.1},{rx.2},{ry.1},{ry.2},{rz.1},{rz.2}")
     | _, _ => "bad-request"
+  | "fs-history" :: flat :: gz :: rest =>
+    -- the operation list may contain spaces inside MIME types? no: tokens are re-joined defensively
+    fsHistory ⟨flat == "1", gz == "1"⟩ ((" ".intercalate rest).splitOn ";")
   | _ => "bad-request"
 
 partial def loop (h : IO.FS.Stream) (out : IO.FS.Stream) : IO Unit := do
